@@ -119,6 +119,9 @@ func main() {
 	if *shard == 0 && *only < 0 {
 		for _, sc := range eng.Scenarios {
 			for _, pr := range sc.Props {
+				if sc.OnlyIf != nil && !sc.OnlyIf() {
+					break
+				}
 				if pr == *prop || *prop == "all" {
 					var msgs []string
 					func() {
